@@ -328,6 +328,14 @@ func runC16Case(r *ev.Run, c c16Case) {
 	for _, line := range authLines {
 		dec, err := base64.StdEncoding.DecodeString(line)
 		carries := err == nil && strings.Contains(string(dec), c.Pass)
+		if err == nil && c.Mech == "CRAM-MD5" && strings.Contains(string(dec), " ") {
+			// the one response of CRAM-MD5 is "user keyed-digest": the digest is the password's encoding in this mechanism
+			// (together with the challenge it is all an offline search needs)
+			carries = true
+			if i := strings.LastIndex(string(dec), " "); i >= 0 && len(dec)-i-1 >= 16 && strings.Contains(all, string(dec[i+1:])) {
+				report("sasl-response-digest", "keyed digest of the CRAM-MD5 response")
+			}
+		}
 		if !carries {
 			continue
 		}
